@@ -64,8 +64,8 @@ FAULT_PROPS = {
     "CLONE_SELF": {"C15"},
     "SERDE_SHAPE": {"C20"},
     "FMT_SHAPE": {"C19"},
-    "KEY_IDENTITY": {"C12", "C07", "C05", "C16"},
-    "SHAPE_BORROW": {"C01", "C07", "C05", "C14"},
+    "KEY_IDENTITY": {"C12", "C07", "C05", "C16", "C18"},
+    "SHAPE_BORROW": {"C01", "C07", "C05", "C14", "C08"},
     "SHAPE_DISJOINT": {"C13", "C18"},
     "DROP_LEDGER": {"C02", "C10", "C04"},
     "PROVIDED": {"C09", "C10", "C08"},
@@ -73,6 +73,7 @@ FAULT_PROPS = {
     "SHAPE_SET": {"C03", "C05", "C06", "C07", "C08", "C09", "C10", "C12", "C14", "C15", "C16"},
     "DUP_KEY": None,  # every property quantifies over reachable states, and those have pairwise different keys
     "EXTEND_REF": {"C16", "C07", "C05", "C12"},
+    "SHAPE_UNLAWFUL": {"C01", "C05", "C07", "C11", "C12", "C14", "C15", "C16", "C17"},
     "MIRI": None,
     "CRASH": None,  # every property
 }
